@@ -722,7 +722,8 @@ def refine_droplet(
             _image_deviation, data_flat[free], bounds=bounds, **least_squares_params
         )
         data_flat[free] = result.x
-    droplet.data = unstructured_to_structured(data_flat, dtype=dtype)
+    # store the result as a record (like all droplet data), not as a 0-d structured array
+    droplet.data = unstructured_to_structured(data_flat, dtype=dtype).view(np.recarray)[()]
 
     return _normalize_droplet_position(droplet, phase_field.grid)
 
